@@ -12,11 +12,12 @@ def run(ctx):
               "diagonal MMC excluded) x well-formed class-structured data on a 2^-10 grid (2 <= d <= 5, >= 4d samples, >= 2 "
               "classes with >= 4 members, label-consistent tuples; class labels and chunk ids 0..C-1 or renamed 1-based / gapped): fit returns self, components_ is a finite real float "
               "array of the documented shape, n_features_in_ = d, transform maps (n, d) to (n, k), M is symmetric and PSD "
-              "(exact LDL^T of M + 1e-9 max|M| I on rationals). distinct = distinct (estimator, options, data).")
+              "(exact LDL^T of M + 1e-9 max|M| I on rationals); LFDA over embedding_type x n_components; each estimator fitted a second time on data of another dimensionality (everything follows the last fit). distinct = distinct (estimator, options, data).")
   ctx.trusted = ["Coq 8.16.1 kernel + vm_compute", "shape rule and PSD certificate checkers in Model/CaseDefs.v",
                  "that every solver returns such an L is explored, not proved"]
   ok = ctx.build_property()
   terms, recs = [], []
+  refitted = set()
   nrounds = 3 if thorough else 1
   for rnd in range(nrounds):
     for name, kw, data in fits.zoo_specs(ctx.rng, variants=True):
@@ -60,6 +61,39 @@ def run(ctx):
           int(getattr(est, 'n_features_in_', -1)) if getattr(est, 'n_features_in_', -1) >= 0 else 0,
           X.shape[0], T.shape[0], T.shape[1] if T.ndim == 2 else 0, gmat(M, qdy)))
       recs.append(dict(inp=inp, shape=L.shape, nfi=getattr(est, 'n_features_in_', None), tshape=T.shape, M=M, self=r is est))
+      # the same object fitted again on data of another dimensionality: everything follows the LAST fit
+      if not any(isinstance(v, np.ndarray) for v in kw.values()) and kw.get('n_components') is None and name not in refitted:
+        refitted.add(name)
+        for _ in range(2):
+          data2 = fits.make_data(ctx.rng)
+          if data2['d'] != d:
+            break
+        ctx.count('refit', 1)
+        try:
+          with warnings.catch_warnings():
+            warnings.simplefilter('ignore')
+            kw2 = fits.sdml_fix_balance(name, {k: v for k, v in kw.items() if k != 'balance_param'}, data2)
+            est.set_params(**{k: v for k, v in kw2.items() if k == 'balance_param'})
+            r2 = est.fit(*fits.fit_args(name, data2))
+            T2 = est.transform(data2['X'])
+        except Exception as ex:
+          ctx.fail_input('refit', '%s: fitting the same object again on other data raises %s' % (name, type(ex).__name__),
+                         dict(estimator=name, params=opt, d_first=d, d_second=data2['d']), observed=str(ex)[:200])
+          continue
+        d2 = data2['d']
+        L2 = np.asarray(est.components_)
+        why = []
+        if getattr(est, 'n_features_in_', None) != d2:
+          why.append('n_features_in_ is %r after a fit on %d features (first fit: %d features)' % (getattr(est, 'n_features_in_', None), d2, d))
+        if L2.ndim != 2 or L2.shape[1] != d2 or L2.shape[0] > d2 or (L2.shape[0] < d2 and not lowrank):
+          why.append('components_ has shape %s' % (L2.shape,))
+        if T2.shape != (len(data2['X']), L2.shape[0]):
+          why.append('transform output has shape %s' % (T2.shape,))
+        if r2 is not est:
+          why.append('fit does not return self')
+        if why:
+          ctx.fail_input('refit', name + ' fitted twice: ' + '; '.join(why),
+                         dict(estimator=name, params=opt, d_first=d, d_second=d2, X_second=data2['X'].tolist()))
       ctx.seen((name, repr(sorted(opt.items())), rnd), True)
       ctx.sample(dict(estimator=name, params=opt, components_shape=list(L.shape)), limit=5)
   if ok:
